@@ -41,7 +41,7 @@ def build(d):
     else:
         n, edges = d["n"], [tuple(e) for e in d["edges"]]
         flags = E.bool_items(s, len(edges), d["mode"])
-        g = E.mk_graph(n, edges)
+        g = E.mk_graph(n, edges, d.get("history"))
         passed = fn(s, BoolArray1D(flags) if d["form"] == "array1d" else flags, g, use_graph_primitive=d["primitive"])
         if not isinstance(passed, BoolArray1D) or len(passed) != n:
             raise AssertionError("result is not a BoolArray1D with one entry per vertex")
@@ -76,12 +76,16 @@ def instances(tier, rng):
         for prim in (False, True):
             out.append(dict(name="%s/cycle/pr%d" % (nm, prim), fn="cycle", form="list", n=n, edges=es, mode="vars", primitive=prim))
         out.append(dict(name="%s/path/pr1" % nm, fn="path", form="list", n=n, edges=es, mode="vars", primitive=True))
+        if len(es) >= 2:
+            for prim in (False, True):
+                out.append(dict(name="%s/cycle/pr%d/hist" % (nm, prim), fn="cycle", form="list", n=n, edges=es, mode="vars", primitive=prim,
+                                history=len(es) // 2))
         if len(es) <= 5:
             out.append(dict(name="%s/cycle/and" % nm, fn="cycle", form="array1d", n=n, edges=es, mode="and", primitive=False))
             out.append(dict(name="%s/path/mixed" % nm, fn="path", form="array1d", n=n, edges=es, mode="vars", primitive=True))
-    frames = [(1, 1), (1, 2), (2, 1), (2, 2), (1, 3), (0, 1), (1, 0), (0, 0)]
+    frames = [(1, 1), (1, 2), (2, 1), (2, 2), (1, 3), (0, 1), (1, 0), (0, 0), (0, 2), (2, 3), (3, 2)]
     if tier == "thorough":
-        frames += [(2, 3), (3, 2), (3, 3), (1, 5), (5, 1), (2, 4), (0, 3)]
+        frames += [(3, 3), (1, 5), (5, 1), (2, 4), (0, 3)]
     for (h, w) in frames:
         for prim in (False, True):
             out.append(dict(name="frame%dx%d/cycle/pr%d" % (h, w, prim), fn="cycle", form="frame", h=h, w=w, primitive=prim))
@@ -118,6 +122,22 @@ def spot(tier, rng):
         inner_v = {(y, 1) for y in range(1, h - 1)} | {(y, w - 1) for y in range(1, h - 1)}
         pats = [pattern(per_h, per_v), pattern(per_h - {(0, 0)}, per_v), pattern(per_h | inner_h, per_v | inner_v),
                 pattern(inner_h, inner_v), pattern(set(), set())]
+        # a long winding (comb-shaped) cycle through every lattice point of an odd-width strip: rows are traversed boustrophedon
+        # from column 1, column 0 closes the cycle (needs (w+1) even or handled by dropping the last column)
+        W1 = w + 1 if (w + 1) % 2 == 0 else w          # number of lattice columns used (even)
+        if W1 >= 2 and h >= 1:
+            ch, cv = set(), set()
+            for y in range(h + 1):                      # every row: horizontal run over columns 1..W1-1
+                for x in range(1, W1 - 1):
+                    ch.add((y, x))
+            for y in range(h):                          # connect consecutive rows alternately at the right / at column 1
+                cv.add((y, W1 - 1) if y % 2 == 0 else (y, 1))
+            for y in range(h):                          # column 0 closes it
+                cv.add((y, 0))
+            ch.add((0, 0))
+            ch.add((h, 0)) if h % 2 == 1 else None
+            cand = pattern(ch, cv)
+            pats.append(cand)
         wrong = pattern(per_h, per_v)
         wrong[-1] = not wrong[-1]
         pats.append(wrong)
